@@ -15,6 +15,9 @@ def run(ctx, prefixes):
     ok, _, _, _ = ctx.mc("H2Relay.tla", "MC_H2Relay_DropOnClose.cfg", expect_ok=False)
     if ok:
         raise vlib.Infra("H2Relay mutant DropOnClose not detected by the model")
+    ok, _, _, _ = ctx.mc("H2Relay.tla", "MC_H2Relay_ForwardInitWin.cfg", expect_ok=False)
+    if ok:
+        raise vlib.Infra("H2Relay mutant ForwardInitWin not detected by the model")
     ctx.mc("H2Hpack.tla", "MC_H2Hpack.cfg")
     binp = ctx.build()
     n = 60 if q else 1500
@@ -45,6 +48,9 @@ def run(ctx, prefixes):
         {"h": [act("headers", 1), act("data", 1, 40000), act("ctl", 0, t="SI", v=100), act("rst", 1, n=8)]},
         {"h": [act("headers", 1), act("data", 1, 40000), act("headers", 3), act("data", 3, 20000), act("ctl", 0, t="SI", v=1),
                act("headers", 1, es=True), act("data", 3, 0, es=True)]},
+        # the receiver starts with SETTINGS_INITIAL_WINDOW_SIZE 0 and opens the stream with WINDOW_UPDATE: the sender's
+        # own windows towards the relay are not the receiver's business (MC_H2Relay_ForwardInitWin)
+        {"h": [act("ctl", 0, t="SI", v=0), act("headers", 1), act("ctl", 1, t="WU", v=1000), act("data", 1, 1000, es=True)]},
         # the receiver lowers its SETTINGS_MAX_FRAME_SIZE while a DATA frame cut to the old limit waits for window
         # (MC_H2Relay_SplitOnlyAtEnqueue)
         {"h": [act("ctl", 0, t="SM", v=20000), act("headers", 1), act("data", 1, 40000), act("data", 1, 40000),
@@ -90,7 +96,7 @@ def run(ctx, prefixes):
                 start -= 1
             off = json.loads(lines[hwm]) if hwm < len(lines) else {}
             # attribute the rejection: header / reset events are fidelity (C10), credit is flow control (C09)
-            owner = {"a_credit": ("C09",), "b_ping": ("C10",), "b_goaway": ("C10",), "b_recv": ("C10",) if off.get("t") in ("H", "R", "PP") else ("C09", "C10")}.get(off.get("ev"), ("C09", "C10"))
+            owner = {"a_credit": ("C09",), "a_settings": ("C09",), "b_ping": ("C10",), "b_goaway": ("C10",), "b_recv": ("C10",) if off.get("t") in ("H", "R", "PP") else ("C09", "C10")}.get(off.get("ev"), ("C09", "C10"))
             detail = {"matched_prefix": hwm, "of": total, "scenario_so_far": lines[max(0, start - 1):hwm], "offending": lines[hwm:hwm + 2], "tlc": tout[-600:]}
             if ctx.pid in owner:
                 ctx.violation("%s:trace-rejected:%s" % (ctx.pid, off.get("ev", "?") + (":" + off.get("t", "") if off.get("t") else "")), detail)
